@@ -231,3 +231,26 @@ def engine_property(pid, rep, replay=None):
 
 for _pid in ("C13", "C14", "C19"):
     REGISTRY[_pid] = engine_property
+
+
+def c05_property(pid, rep, replay=None):
+    rep.broken = None
+    info = prove(pid, rep)
+    if not build_impl(rep):
+        proof_coverage(rep, info, {})
+        return finish(rep, info)
+    tier = rep.tier if rep.broken is None else "thorough"
+    stats, cases = walks.check_c05(rep, tier)
+    proof_coverage(rep, info, {
+        "evaluations": stats.get("positions_hashed", 0) + stats.get("single_feature_variants", 0),
+        "distinct_nontrivial": stats.get("distinct_positions", 0),
+        "rule": "EXPLORATION part (collision freedom is not a theorem for a 64-bit hash): every position visited by random legal walks is "
+                "inserted into a hash -> position map built from the implementation's outputs; plus, per sampled position, all 4 single "
+                "castling-right flips, all en-passant files, the side flip and 6 random single-square edits re-imported and hashed; "
+                "distinct = distinct positions (FEN fields 1-4). The THEOREMS (single-feature sensitivity on the generated keys) are listed under theorems.",
+        "samples": [cases[0][:8]] if cases else [], "stats": dict(stats),
+    })
+    return finish(rep, info)
+
+
+REGISTRY["C05"] = c05_property
